@@ -91,6 +91,35 @@ def path_provenance(m, q, call):
     return out or [(None, None)]
 
 
+def _stable_construct(m, f, call, what):
+    """rename-stable description of a mutator call: callee, enclosing exception handler(s), ordinal among equals"""
+    def ctx(c):
+        hs = []
+        for anc in _ancestors(m, c):
+            if anc is f:
+                break
+            if isinstance(anc, ast.ExceptHandler):
+                t = anc.type
+                names = ["<any>"] if t is None else [pyfront.dotted(t)] if not isinstance(t, ast.Tuple) else sorted(
+                    pyfront.dotted(e) or "?" for e in t.elts)
+                hs.append("except (%s)" % ", ".join(n or "?" for n in names))
+        return " in ".join(hs)
+    mine = ctx(call)
+    same = [c for c, w in pycalls.mutator_calls(f) if w == what and ctx(c) == mine]
+    same.sort(key=lambda c: (c.lineno, c.col_offset))
+    text = what + ("(...) in " + mine if mine else "(...)")
+    if len(same) > 1:
+        text += " #%d" % (1 + [id(c) for c in same].index(id(call)))
+    return text
+
+
+def _ancestors(m, n):
+    p = m.parents.get(n)
+    while p is not None:
+        yield p
+        p = m.parents.get(p)
+
+
 def r1_read_roles(repo=None, rid="C20.R1", prefixes=None, stop_modules=()):
     r = Rule(rid, "read-only roles (readers, listings, time helpers) have no path to a file-system mutator (effects)")
     g = pycalls.Graph(repo)
@@ -118,7 +147,7 @@ def r1_read_roles(repo=None, rid="C20.R1", prefixes=None, stop_modules=()):
             if not precise:
                 precise = all(len(cands) == 1 for k in chain for c, cands in g.imprecise.get(k, []))
             prov = path_provenance(m, q, call)
-            cons = norm(ast.unparse(call))
+            cons = _stable_construct(m, f, call, what)
             outside = [p for p in prov if p[1] is not None and p[1].startswith("/tmp")]
             inside = [p for p in prov if p not in outside]
             if not inside:
